@@ -3,6 +3,7 @@
 # For every seeded change (default: all under /verif/seeded): apply it to /repo, rebuild the harness once, run the quick
 # check of EVERY property (no further rebuild), revert.  Writes one line per (change, property): "<change> <prop> <verdict>"
 # where verdict is holds | VIOLATION(<kind>) | broken.  Restores /repo and the harness at the end.
+export VERIF_EVIDENCE_DIR=/verif/work/evidence-scratch   # keep the committed evidence (unchanged tree, seed 1) intact
 out="$1"; shift
 cd /verif
 ids="${@:-$(cd seeded && ls -d */ | tr -d /)}"
